@@ -271,6 +271,13 @@ impl<'a> Session<'a> {
         }
     }
 
+    /// the history tells the builder the size of the script this UTxO carries through a sized
+    /// reference-input listing (with the de-duplication option the input may then also be spent
+    /// through an entry point that knows nothing about scripts)
+    fn sized_listing(&self, u: usize) -> bool {
+        self.sc.knobs.dedup_ref_inputs && self.sc.ops.iter().any(|o| matches!(o, Op::RefIn(x, true) if *x == u))
+    }
+
     fn utxo_ok(&self, i: usize) -> bool {
         i < self.w.utxos.len()
     }
@@ -868,7 +875,7 @@ impl<'a> Session<'a> {
             Op::InLegacy(u) => {
                 need!(self.utxo_ok(*u));
                 let ut = &self.w.utxos[*u];
-                if ut.script_ref.is_some() {
+                if ut.script_ref.is_some() && !self.sized_listing(*u) {
                     // the older entry points cannot be told about a reference script on the UTxO
                     return Res::Skipped("legacy input entry point cannot declare a reference script");
                 }
@@ -963,7 +970,7 @@ impl<'a> Session<'a> {
             Op::InDirect(u) => {
                 need!(self.utxo_ok(*u));
                 let ut = &self.w.utxos[*u];
-                if ut.script_ref.is_some() {
+                if ut.script_ref.is_some() && !self.sized_listing(*u) {
                     return Res::Skipped("legacy input entry point cannot declare a reference script");
                 }
                 let input = self.w.input_of(ut);
